@@ -782,6 +782,14 @@ func (f *File) UpdateSidx(addIfNotExists, nonZeroEPT bool) error {
 		sidx = &SidxBox{}
 	}
 	fillSidx(sidx, refTrak, segDatas, nonZeroEPT)
+	if exists {
+		// Further top-level sidx boxes are written between this box and the first segment
+		for _, sx := range f.Sidxs {
+			if sx != sidx {
+				sidx.FirstOffset += sx.Size()
+			}
+		}
+	}
 	if !exists {
 		err = insertSidx(f, segDatas, sidx)
 		if err != nil {
